@@ -2415,6 +2415,11 @@ func writeBaseline(pkgs []*packages.Package, path string) error {
 				}
 			}
 		}
+		for _, n := range sc.Names() {
+			if _, ok := sc.Lookup(n).(*types.Var); ok {
+				fields = append(fields, p.PkgPath+".var."+n)
+			}
+		}
 	}
 	sort.Strings(fields)
 	if err := os.WriteFile(strings.TrimSuffix(path, "baseline_funcs.txt")+"baseline_fields.txt", []byte("# struct fields of the reference tree (written together with baseline_funcs.txt)\n"+strings.Join(fields, "\n")+"\n"), 0o644); err != nil {
